@@ -159,7 +159,7 @@ pub struct Behaviour {
     pub outcome: Outcome,
     /// tracing: number of log events emitted before the first and after the last await.
     #[serde(default)]
-    pub logs: (u8, u8),
+    pub logs: (u16, u16),
     /// A panicking callback panics in the synchronous part of the function, before the future it
     /// would return exists (hand-written step / hook functions and `World::new()` can do that).
     #[serde(default, skip_serializing_if = "std::ops::Not::not")]
